@@ -416,6 +416,12 @@ let run_wire (id : ostring) (body : Sx.t list) : ostring =
     end
   | _ -> "BADCASE " ^ id
 
+(* bytes -> tree: the model's own parser (model/JsonParse.v, extracted); it stands for Go's lexer and is
+   tied to it by every decoder and settings case *)
+exception Json_error of ostring
+let parse_text (s : ostring) : json =
+  match parse_json (Sx.cstr s) with Some j -> j | None -> raise (Json_error "rejected by parse_json")
+
 let derr_ok (go : ostring) = String.length go >= 3 && String.sub go 0 3 = "ok:"
 
 let run_decode (id : ostring) (body : Sx.t list) : ostring =
@@ -423,7 +429,7 @@ let run_decode (id : ostring) (body : Sx.t list) : ostring =
   | [A kind; text; got] ->
     let go = str got in
     (try
-      let tree = Jsonp.parse (str text) in
+      let tree = parse_text (str text) in
       let on_curve _ = true in
       let m = match kind with
         | "tx" -> (match unmarshal_tx on_curve sha256 tree with
@@ -436,8 +442,52 @@ let run_decode (id : ostring) (body : Sx.t list) : ostring =
       let g = if derr_ok go then go else "err" in
       if m = g then "OK " ^ id ^ " 1"
       else Printf.sprintf "MISMATCH %s 0 decode(%s) model=%s go=%s" id kind (if String.length m > 300 then String.sub m 0 300 else m) (if String.length go > 300 then String.sub go 0 300 else go)
-    with Jsonp.Json_error e ->
+    with Json_error e ->
       if derr_ok go then Printf.sprintf "MISMATCH %s 0 decode: the glue parser rejects text that Go accepts (%s)" id e else "OK " ^ id ^ " 1")
+  | _ -> "BADCASE " ^ id
+
+(* ------------------------------------------------------------------ the lexer: bytes -> tree *)
+let run_lex (id : ostring) (body : Sx.t list) : ostring =
+  match body with
+  | [A kind; text; got] ->
+    let go = str got in
+    let t = str text in
+    let m = match kind, parse_json (Sx.cstr t) with
+      | "doc", Some _ -> "valid"
+      | "doc", None -> "invalid"
+      | "string", Some (JStr s) -> "ok:" ^ hex_of_ostring (ostr (render (JStr s)))
+      | "number", Some (JNum z) -> "ok:" ^ ostr (render (JNum z))
+      | "number", Some (JNumF l) -> "ok:" ^ ostr l
+      | _, _ -> "err" in
+    if m = go then "OK " ^ id ^ " 1"
+    else Printf.sprintf "MISMATCH %s 0 lex(%s) model=%s go=%s text=%s" id kind m go (String.escaped (if String.length t > 200 then String.sub t 0 200 else t))
+  | _ -> "BADCASE " ^ id
+
+(* ------------------------------------------------------------------ settings decoder *)
+let run_settings (id : ostring) (body : Sx.t list) : ostring =
+  match body with
+  | [text; got] ->
+    let go = str got in
+    (try
+      let tree = parse_text (str text) in
+      let m = match decode_settings tree with
+        | StPanic -> "panic"
+        | StErr _ -> "err"
+        | StOk p ->
+          let opt f = function Some x -> f x | None -> "-" in
+          String.concat "," [ "ok:" ^ show_n p.ps_limit; show_n p.ps_genesis; opt show_z (half_life_ns p); show_n p.ps_base;
+                              show_n p.ps_ilimit; show_n p.ps_fee; opt show_n (units_per_coin p); show_z p.ps_timeout;
+                              show_z p.ps_timer; show_z p.ps_timestamp; show_z p.ps_verifs ] in
+      (* fields the model gives no value for ("-") are not compared *)
+      let same =
+        if String.length m >= 3 && String.sub m 0 3 = "ok:" && String.length go >= 3 && String.sub go 0 3 = "ok:" then begin
+          let ms = String.split_on_char ',' m and gs = String.split_on_char ',' go in
+          List.length ms = List.length gs && List.for_all2 (fun a b -> a = "-" || a = b || a = "ok:-") ms gs
+        end else m = go in
+      if same then "OK " ^ id ^ " 1"
+      else Printf.sprintf "MISMATCH %s 0 settings model=%s go=%s" id m go
+    with Json_error e ->
+      if go = "err" then "OK " ^ id ^ " 1" else Printf.sprintf "MISMATCH %s 0 settings: the glue parser rejects text that Go accepts (%s): go=%s" id e go)
   | _ -> "BADCASE " ^ id
 
 (* ------------------------------------------------------------------ main *)
@@ -454,6 +504,8 @@ let () =
         | L (A "nbcase" :: A id :: body) -> run_nb id body
         | L (A "wirecase" :: A id :: body) -> run_wire id body
         | L (A "decodecase" :: A id :: body) -> run_decode id body
+        | L (A "settingscase" :: A id :: body) -> run_settings id body
+        | L (A "lexcase" :: A id :: body) -> run_lex id body
         | L (A "walletcase" :: A id :: body) -> run_wallet id body
         | L (A "amountcase" :: A id :: body) -> run_amount id body
         | L (A "progresscase" :: A id :: body) -> run_progress id body
